@@ -5,6 +5,7 @@
 -/
 import NutsModel.C05.Forms
 import NutsModel.C05.Today
+import NutsModel.C05.Threads
 import NutsProofs.Lemmas.C05Forms
 import NutsProofs.Lemmas.C05Vci
 
@@ -33,16 +34,6 @@ theorem solo_nopre_run (cfg : Cfg) (r : BurnReq) (hpre : r.pre = false) (hfd : r
   simp [run, soloSched, applyEv, stepW, stepThread, stepBurn, hpre, Thread.outcome, hfd]
 
 /-! ### validatePresentationNonce as threads -/
-
-/-- the threads of the schedule model one authorization response (that reached the nonce check) stands for: any
-    disagreement / missing nonce / extraction error → one Delete-only thread per collected nonce ("burn them all");
-    otherwise ONE consuming thread for the common nonce, expecting the state of the response -/
-def responseThreads (ps : List Pres) (state : String) : List BurnReq :=
-  let a := collect ps
-  if nonceErrs a > 0 then a.nonces.map (fun n => { kind := .vpNonce, id := n, want := state, pre := false })
-  else match a.nonces with
-    | [] => []
-    | n :: _ => [{ kind := .vpNonce, id := n, want := state }]
 
 /-- the store after the given requests ran one after the other, each alone through its five steps -/
 def soloStores (cfg : Cfg) (now : Nat) : Store → List BurnReq → Store
@@ -126,13 +117,6 @@ theorem validateNonce_eq_threads (cfg : Cfg) (hl : cfg.gad = .locked) (hx : cfg.
           simp [hm, hm', vpOutcome_e2]
 
 /-! ### RequestJWTByGet / RequestJWTByPost as a thread -/
-
-/-- the thread a request-object fetch stands for.  The handler's two comparisons look at two FIELDS of the consumed value
-    (`ro.Client`, `ro.RequestURIMethod`), the thread's `verdict` compares the whole value: `fits` is the handler's own
-    predicate on the consumed value, so the thread is stated per stored value -/
-def reqObjReq (r : ReqObjFetch) (v : String) : BurnReq :=
-  { kind := .reqObj, id := r.id, want := v,
-    post := decide (roClient v = r.subject) && decide (roMethod v = (if r.post then "post" else "get")) }
 
 /-- answer classes: not found / consumed-and-refused (either comparison) / honoured -/
 def reqObjOutcome (r : ReqObjFetch) (a : Ans) : Option Outcome :=
